@@ -19,6 +19,7 @@ pub mod c19;
 pub mod c20;
 pub mod c21;
 pub mod c22;
+pub mod c23;
 pub mod c24;
 pub mod fdgen;
 pub mod search;
@@ -49,6 +50,60 @@ pub fn mark(line: &str) {
             let _ = f.write_all(line.as_bytes());
         }
     });
+}
+
+thread_local! {
+    /// message of the last caught panic
+    pub static LAST_PANIC_MSG: std::cell::RefCell<String> = std::cell::RefCell::new(String::new());
+}
+
+/// the panic hook every harness binary installs: records location and message, prints nothing
+pub fn install_panic_hook() {
+    std::panic::set_hook(Box::new(|info| {
+        let loc = info.location().map(|l| format!("{}:{}", l.file(), l.line())).unwrap_or_default();
+        let msg = if let Some(s) = info.payload().downcast_ref::<&str>() {
+            s.to_string()
+        } else if let Some(s) = info.payload().downcast_ref::<String>() {
+            s.clone()
+        } else {
+            String::new()
+        };
+        LAST_PANIC.with(|p| *p.borrow_mut() = loc);
+        LAST_PANIC_MSG.with(|p| *p.borrow_mut() = msg);
+    }));
+}
+
+/// panic site enum shared with the Lean model (`Res.panic site`), derived from the panic message
+pub fn canon_site(msg: &str, loc: &str) -> &'static str {
+    if msg.contains("Cannot project non-Projection") {
+        "project"
+    } else if msg.contains("LTerm::Projection") {
+        "projection-eq-hash"
+    } else if msg.contains("divide by zero") || msg.contains("divisor of zero") {
+        "div-zero"
+    } else if msg.contains("empty finite domain") {
+        "empty-domain"
+    } else if msg.contains("Invalid constant constraint") {
+        "distinctfd-const"
+    } else if msg.contains("Invalid value") {
+        "distinctfd-value"
+    } else if msg.contains("Invalid LTerm") || (loc.contains("distinctfd.rs") && msg.contains("Cannot")) {
+        "distinctfd-term"
+    } else if msg.starts_with("assertion failed") && (loc.contains("clpfd") || loc.contains("clpz")) {
+        "assert-operand"
+    } else if loc.contains("state/mod.rs") {
+        "unbound-domain"
+    } else if msg.contains("Improper list must have") {
+        "improper-empty"
+    } else if msg.contains("Only list type") {
+        "extend-nonlist"
+    } else if msg.contains("Option::unwrap()") {
+        "unwrap-none"
+    } else if msg.contains("overflow") {
+        "overflow"
+    } else {
+        "other"
+    }
 }
 
 thread_local! {
